@@ -343,6 +343,8 @@ Verdict RestartEngine::execute(const Plan& plan, EventLog& log, Stats& st)
   log.line("doc %016llx bytes %zu edits %d alg %s rounds %d extra [%s]", (unsigned long long)fnv(D), D.size(), nedit, alg.c_str(), rounds, extra.c_str());
 
   g_has_dh = D.find("_dh") != std::string::npos;
+  st.shape = plan.get("name", "") + ":" + alg + ":";
+  for (const Step& s : plan.steps) st.shape += s.op + ",";
   // is the original a document gama-local accepts at all?
   Survey S0 = parse_survey(D, false);
   if (!S0.ok) { log.line("original not accepted: %s", S0.what.c_str()); st.add("trivial.original_refused"); return Verdict(); }
